@@ -140,7 +140,7 @@ class C17(EngineCheck):
     def extra(self, tier, seed, stats):
         shard, nshards = getattr(self, 'shard', (0, 1))
         n_real = 30 if tier == 'quick' else 40
-        n_b = 14 if tier == 'quick' else 20
+        n_b = 36 if tier == 'quick' else 40
         self._real_sample(tier, seed, stats, n_real)
         if shard % 4 == 0:
             self._registry_states(tier, seed + shard, stats, n_b)
